@@ -168,6 +168,9 @@ pub fn work(prop: &str, thorough: bool, verif_seed: u64, job: u64, jobs: u64, to
         }
         let seed = run_seed(verif_seed, prop, idx);
         let spec = props::make_spec(prop, seed);
+        if std::env::var("SIM_DEBUG").is_ok() {
+            eprintln!("[run] idx {idx}");
+        }
         let out = props::execute(prop, &spec, &root);
         // light determinism self-check on the first runs of the batch
         if idx < 24 {
@@ -564,6 +567,15 @@ pub fn check(prop: &str, thorough: bool, verif_seed: u64, jobs: u64) -> i32 {
         if let Some(k) = known_match(&known, prop, class) {
             println!("KNOWN-FINDING: property={prop} class=\"{class}\" occurrences={} {}", agg_c.count, k.text);
             known_hits.push(json!({"class": class, "occurrences": agg_c.count, "what": k.text}));
+            // maintenance aid: (re)generate a minimised witness for each known finding
+            if std::env::var("SIM_WITNESS_KNOWN").is_ok() {
+                if let Some(w) = agg_c.first.clone() {
+                    let n0 = w.spec.ops.len();
+                    let (min, tried) = shrink(&w, 40, 200);
+                    let path = write_replay(&min, verif_seed, tried, n0);
+                    println!("  witness: {path}");
+                }
+            }
             continue;
         }
         violations += agg_c.count;
@@ -580,6 +592,21 @@ pub fn check(prop: &str, thorough: bool, verif_seed: u64, jobs: u64) -> i32 {
         println!("  minimised: {} -> {} ops, {} faults, schedule {}; {} candidates; fresh-process replay {}", original_ops, min.spec.ops.len(), min.spec.faults.len(), match &min.spec.sched { Sched::Default => "default".to_string(), Sched::Tape(t) => format!("tape[{}]", t.len()), Sched::Prng{..} => "prng".to_string() }, tried, if confirmed { "reproduced it" } else { "DID NOT reproduce it" });
         println!("  ops: {:?}", min.spec.ops.iter().map(|o| o.short()).collect::<Vec<_>>());
         viol_lines.push(format!("VIOLATION property={prop} replay={path}"));
+    }
+    let mut name_sweep_n = 0u64;
+    if prop == "C11" {
+        match name_sweep() {
+            Ok(n) => name_sweep_n = n,
+            Err(e) => {
+                violations += 1;
+                exit = 1;
+                println!("violation: property=C11 class=\"file-name-encoding\" {e}");
+                let path = format!("{}/replays/C11-name-sweep.txt", out_dir());
+                let _ = std::fs::create_dir_all(format!("{}/replays", out_dir()));
+                let _ = std::fs::write(&path, format!("C11 file-name encoding sweep (not a simulation; re-run ./check C11 quick): {e}\n"));
+                viol_lines.push(format!("VIOLATION property=C11 replay={path}"));
+            }
+        }
     }
     let _ = std::fs::remove_dir_all(scratch_root());
     let wall = t0.elapsed().as_secs_f64();
@@ -625,6 +652,7 @@ pub fn check(prop: &str, thorough: bool, verif_seed: u64, jobs: u64) -> i32 {
             "stalls_observed": agg.stalls,
             "determinism_selfcheck_pairs": agg.selfcheck_pairs,
             "known_findings_hit": known_hits,
+            "file_name_encoding_offsets_swept_not_simulation": name_sweep_n,
             "stopped_early_by_wall_clock_cap": agg.stopped_early,
             "components": {
                 "real": ["raft-log (RaftLog, RaftLogWAL, FlushWorker, Chunk, RecordIterator, PayloadCache, FileLock, Dump)", "codeq", "fs2", "std::fs", "std::sync::mpsc", "tmpfs VFS + flock as page-cache view"],
@@ -750,4 +778,47 @@ pub fn selfcheck_cmd(n: u64, verif_seed: u64) -> i32 {
     } else {
         0
     }
+}
+
+/// C11, file-name encoding for all u64 offsets: a pure function, checked by a plain boundary sweep
+/// through the public pair Config::chunk_path / RaftLog::load_chunk_ids (NOT simulation evidence;
+/// reported separately). Returns the number of offsets checked.
+pub fn name_sweep() -> Result<u64, String> {
+    use crate::model::TT;
+    let dir = format!("{}/names", scratch_root());
+    let _ = std::fs::remove_dir_all(&dir);
+    std::fs::create_dir_all(&dir).map_err(|e| e.to_string())?;
+    let mut xs: Vec<u64> = vec![0, 1, u64::MAX, u64::MAX - 1];
+    let mut p = 1u64;
+    for _ in 0..20 {
+        for d in [p.wrapping_sub(1), p, p.saturating_add(1), p.saturating_mul(9), p.saturating_mul(5).saturating_add(7)] {
+            xs.push(d);
+        }
+        p = p.saturating_mul(10);
+    }
+    for b in 0..64 {
+        let v = 1u64 << b;
+        xs.push(v);
+        xs.push(v - 1);
+        xs.push(v.saturating_add(1));
+    }
+    xs.sort();
+    xs.dedup();
+    let cfg = raft_log::Config::new(&dir);
+    for x in &xs {
+        let path = cfg.chunk_path(raft_log::ChunkId(*x));
+        let name = path.rsplit('/').next().unwrap_or("");
+        if name != crate::shadow::chunk_name(*x) {
+            return Err(format!("chunk_path({x}) = {name}, the documented encoding gives {}", crate::shadow::chunk_name(*x)));
+        }
+        std::fs::write(&path, b"").map_err(|e| e.to_string())?;
+    }
+    let ids = raft_log::RaftLog::<TT>::load_chunk_ids(&cfg).map_err(|e| e.to_string())?;
+    let got: Vec<u64> = ids.iter().map(|c| c.offset()).collect();
+    let _ = std::fs::remove_dir_all(&dir);
+    if got != xs {
+        let bad = xs.iter().zip(got.iter()).find(|(a, b)| a != b);
+        return Err(format!("load_chunk_ids returned {} ids for {} files; first difference {:?}", got.len(), xs.len(), bad));
+    }
+    Ok(xs.len() as u64)
 }
